@@ -99,6 +99,21 @@ def c12_run_replicas(spec, ops, seed, tier, phase, shared, counters,
                 st = np.random.get_state()
                 usable = _expressible(sim, ops)
                 np.random.set_state(st)
+                # calls the API rejects, made in every replica at the same
+                # points of the history (each in its own action space)
+                r3 = core.stream(seed, "rejects")
+                if r3.random() < 0.4:
+                    with_rejects = []
+                    for op in usable:
+                        if op["op"] == "step" and r3.random() < 0.08:
+                            with_rejects.append({
+                                "op": "reject", "call": "step",
+                                "how": r3.choice(sorted(
+                                    EnvSim.GENERIC_REJECT)),
+                                "a": op["a"]})
+                            counters.hit("fault.rejected_call.step")
+                        with_rejects.append(op)
+                    usable = with_rejects
             if phase == "seeded" and not seed_before:
                 np.random.seed(np_seed)
             encs = envsim.FLAT_ENCODINGS if mt[1] else envsim.PARAM_ENCODINGS
@@ -268,6 +283,59 @@ class World:
                 np.random.rand(op.get("n", 1))
             self.counters.hit("fault.rng_disturb")
             return None, None
+        if kind == "bad_construct":
+            # a construction that is refused (rejected generator parameters,
+            # a document that breaks a rule): the caller catches the error;
+            # nobody else must notice
+            self.counters.hit("fault.refused_construction")
+            keep = np.random.get_state()
+            try:
+                from nasim.envs import NASimEnv
+                scen, _ = configs.build(op["spec"], want_cfg=False) \
+                    if op["spec"]["kind"] == "yaml" \
+                    else configs.build(op["spec"])
+                NASimEnv(scen, **op["modes"])
+                self.counters.hit("refused_construction_accepted")
+            except Exception:
+                pass
+            finally:
+                np.random.set_state(keep)
+            seams.collect_now()
+            return None, None
+        if kind == "fork":
+            src = self.envs.get(op["from"])
+            if src is None or k in self.envs:
+                return k, None
+            import copy
+            import pickle
+            try:
+                if op.get("how") == "pickle":
+                    try:
+                        new = pickle.loads(pickle.dumps(src.env))
+                    except Exception:
+                        new = copy.deepcopy(src.env)
+                else:
+                    new = copy.deepcopy(src.env)
+                sim = EnvSim.__new__(EnvSim)
+                sim_init(sim, src.spec, src.modes, self, src.scenario,
+                         src.cfg, env=new)
+            except SutError as e:
+                return k, ("EXC", type(e.exc).__name__)
+            except Exception as e:
+                return k, ("EXC", type(e).__name__)
+            self.envs[k] = sim
+            self.counters.hit("fault.restart.deepcopy_fork")
+            return k, ("fork", new.current_state.tensor.tobytes(),
+                       new.last_obs.tensor.tobytes(), int(new.steps))
+        if kind == "drop":
+            old = self.envs.pop(k, None)
+            if old is None:
+                return k, None
+            old.oracle = None
+            del old
+            seams.collect_now()
+            self.counters.hit("fault.restart.env_dropped")
+            return k, ("drop",)
         try:
             if kind == "construct":
                 d = self._construct(op)
@@ -380,8 +448,10 @@ class World:
         raise ValueError(kind)
 
 
-def sim_init(sim, spec, modes, world, scenario, cfg):
-    """EnvSim construction inside a World (shared scripted seam)."""
+def sim_init(sim, spec, modes, world, scenario, cfg, env=None):
+    """EnvSim construction inside a World (shared scripted seam).  With
+    `env` the simulator wraps an existing environment object (a copy of
+    another one, mid-episode) instead of constructing and resetting one."""
     from nasim.envs import NASimEnv
     sim.record = []
     sim.spec = spec
@@ -410,10 +480,13 @@ def sim_init(sim, spec, modes, world, scenario, cfg):
     sim.scenario, sim.cfg = scenario, cfg
     from .layout import Layout
     sim.layout = Layout(cfg)
-    try:
-        sim.env = NASimEnv(scenario, **sim.modes)
-    except Exception as e:
-        raise SutError("construct", e)
+    if env is not None:
+        sim.env = env
+    else:
+        try:
+            sim.env = NASimEnv(scenario, **sim.modes)
+        except Exception as e:
+            raise SutError("construct", e)
     sim.fully_obs = bool(modes["fully_obs"])
     sim.flat_obs = bool(modes["flat_obs"])
     sim.table = envsim.ActionTable(sim.env, cfg)
@@ -425,6 +498,10 @@ def sim_init(sim, spec, modes, world, scenario, cfg):
     sim.episode_over = False
     sim.sut_errors = 0
     sim.init_obs = None
+    if env is not None:
+        sim.cur_sid = sim.keep_state(sim.env.current_state)
+        sim.start_sid = sim.cur_sid
+        return
     sim._do_reset(first=True)
 
 
@@ -435,14 +512,24 @@ def c19_world_run(ops, seed, tier, only=None):
     per_env = {}
     touched = []
     layout_hist = []      # (op index, env, layout signature) per construct
+    # an environment that came to life as a copy of another one has that
+    # one's history up to the copy as its own past
+    parent = None
+    if only is not None:
+        for i, op in enumerate(ops):
+            if op["op"] == "fork" and op.get("env") == only:
+                parent = (op["from"], i)
+                break
     try:
         for i, op in enumerate(ops):
             k = op.get("env")
-            if only is not None and k != only:
+            if only is not None and k != only and not (
+                    parent is not None and k == parent[0]
+                    and i < parent[1]):
                 continue
             snap = w.snapshot(k) if only is None else None
             who, d = w.exec(op)
-            if op["op"] == "construct" and k in w.envs:
+            if op["op"] in ("construct", "fork") and k in w.envs:
                 layout_hist.append((i, k, layout_sig(w.envs[k].cfg)))
             if who is not None:
                 per_env.setdefault(who, []).append((i, d))
@@ -552,6 +639,7 @@ def c19_generate(seed, tier):
             share.append(None)
     ops = []
     constructed = []
+    forked = []
     shared_gen = family == "same_params" and cfgr.random() < 0.5
     same_layout = family in ("same_object", "same_spec", "same_params",
                              "bench_seeded_unseeded", "same_layout_rewired",
@@ -580,7 +668,31 @@ def c19_generate(seed, tier):
                         "shared_generator": shared_gen})
             constructed.append(k)
             continue
-        if r < 0.30 and not pending and rng.random() < 0.6:
+        if r < 0.07 and r >= 0.05 and not pending and not forked:
+            # an environment is copied mid-episode (copy.deepcopy / pickle
+            # round trip); original and copy both go on
+            k = rng.choice(constructed)
+            j = n_env
+            forked.append(j)
+            gens[j] = gens[k]
+            ops.append({"op": "fork", "env": j, "from": k,
+                        "how": rng.choice(["deepcopy", "pickle"])})
+            # original and copy are stepped side by side for a while
+            for _ in range(rng.randint(2, 12)):
+                ops.append({"op": "step", "env": rng.choice([k, j]),
+                            "_fill": True})
+            continue
+        if r < 0.09 and r >= 0.07 and not pending:
+            ops.append({"op": "bad_construct", "spec": bad_spec(rng),
+                        "modes": gens[0][1]})
+            continue
+        if r < 0.05 and not pending and len(constructed) >= 2:
+            # an environment is dropped (its objects die); its id may be
+            # constructed again later
+            k = rng.choice(constructed)
+            ops.append({"op": "drop", "env": k})
+            continue
+        if r < 0.30 and not pending and rng.random() < 0.3:
             # re-construct an environment id (a new object replaces the old
             # one, which dies) - from its own spec or from another member's
             k = rng.choice(constructed)
@@ -598,7 +710,7 @@ def c19_generate(seed, tier):
             ops.append({"op": "rng", "reseed": rng.choice(
                 [None, rng.randint(0, 2 ** 31 - 1)]), "n": rng.randint(1, 5)})
             continue
-        k = rng.choice(constructed)
+        k = rng.choice(constructed + forked + forked)
         kind = rng.choice(["step"] * 10 + ["gstep", "gstep", "reset",
                                           "readable", "roundtrip", "mask",
                                           "advert", "advert"])
@@ -619,6 +731,32 @@ def c19_generate(seed, tier):
     return ops, family
 
 
+def bad_spec(rng):
+    """A scenario source the library refuses."""
+    kind = rng.choice(["params", "params", "float_bounds", "document"])
+    if kind == "document":
+        from . import docgen, docsim
+        import copy
+        doc = docgen.gen_doc(rng, max_subnets=3)
+        names = sorted(docsim.OPERATORS)
+        rng.shuffle(names)
+        for name in names[:10]:
+            d = copy.deepcopy(doc)
+            try:
+                if docsim.OPERATORS[name](d, rng):
+                    return {"kind": "yaml", "text": docgen.emit(d)}
+            except (KeyError, IndexError, ValueError):
+                continue
+        kind = "params"
+    p = configs.gen_params(rng, max_hosts=20)
+    if kind == "float_bounds":
+        p["address_space_bounds"] = [float(rng.randint(6, 9)),
+                                     float(rng.randint(6, 9))]
+    else:
+        configs.reject_params(p, rng)
+    return {"kind": "generated", "params": p}
+
+
 def c19_fill(ops, seed, tier):
     """Fill in model-guided actions and scripted draws by running each
     environment's ops once in a scratch world (solo)."""
@@ -632,7 +770,7 @@ def c19_fill(ops, seed, tier):
             for op in ops:
                 if op.get("env") != k:
                     continue
-                if op["op"] == "construct":
+                if op["op"] in ("construct", "fork"):
                     w.exec(op)
                     continue
                 sim = w.envs.get(k)
@@ -719,8 +857,11 @@ def c19_check(trace, tier, res):
                                     if what != "differs" else None}))
                     break
         events.sort(key=lambda e: e[0])
+        origin = {op["env"]: op["from"] for op in ops if op["op"] == "fork"}
         for (i, clause, victim, msg, more) in events:
-            if victim in tainted:
+            if victim in tainted or origin.get(victim) in tainted:
+                # (a copy of an environment hit by a known finding carries
+                # the damage with it)
                 continue
             det = d10_detail(i, victim)
             det.update(more)
